@@ -212,23 +212,6 @@ Proof.
     split; [split; reflexivity|]. apply subseq_refl.
 Qed.
 
-(* ---- benign handler endings ---------------------------------------------------------------------- *)
-(* the only excluded ending: the handler RETURNS a fresh response object after it started another one on this request
-   (finish_response then writes a second head behind the unfinished first response: refuted below).  Every other ending,
-   including raising anything after the response was started and returning a response whose prepare() failed, is allowed. *)
-Definition benign (s : st) (e : ev) : Prop :=
-  match e with
-  | EDone (ORet _ _) => match pc s with PHandler _ started => started = false | _ => True end
-  | _ => True
-  end.
-
-Inductive ReachB (c : cfg) : st -> Prop :=
-  | reachb_init : ReachB c init
-  | reachb_step s e s' : ReachB c s -> benign s e -> step c s e = Some s' -> ReachB c s'.
-
-Lemma reachb_reach c s : ReachB c s -> Reach c s.
-Proof. induction 1; [constructor|econstructor; eassumption]. Qed.
-
 (* ---- the order invariant --------------------------------------------------------------------------- *)
 Definition WInv (s : st) : Prop := inc 0 (allids s) (nseen s).
 
@@ -279,10 +262,10 @@ Proof.
 Qed.
 
 Lemma on_done_ids c s cur sd o :
-  pc s = PHandler cur sd -> benign s (EDone o) ->
+  pc s = PHandler cur sd ->
   subseq (allids (on_done c s cur sd o)) (allids s) /\ nseen (on_done c s cur sd o) = nseen s.
 Proof.
-  intros P Bn.
+  intros P.
   assert (EP : sd = true -> subseq (allids (exit_loop (push s (partial_of cur)))) (allids s) /\
                             nseen (exit_loop (push s (partial_of cur))) = nseen s).
   { intros ->. destruct (exit_loop_sub (push s (partial_of cur))) as [H1 H2].
@@ -296,7 +279,7 @@ Proof.
     - destruct (exit_loop_sub (do_close s)) as [[Ho Hn] H2].
       eapply nopush_then; [exact P| |exact H2]. split; [rewrite Ho|rewrite Hn]; reflexivity. }
   unfold on_done. destruct o as [keep status| |status| | | | ].
-  - cbn [benign] in Bn. rewrite P in Bn. apply finish_fresh_ids; assumption.
+  - destruct sd; [apply EP; reflexivity|apply finish_fresh_ids; [exact P|reflexivity]].
   - destruct sd.
     + destruct (closed s); [apply EP; reflexivity|].
       set (r := {| r_id := id_of cur; r_status := 200; r_done := true |}).
@@ -330,9 +313,9 @@ Proof.
   intros [Ho Hn] Hr Hc. rewrite !allids_of, Ho, Hr, Hc. apply subseq_app; [apply subseq_refl|]. apply subseq_app_l.
 Qed.
 
-Theorem step_W c s e s' : WInv s -> benign s e -> step c s e = Some s' -> WInv s'.
+Theorem step_W c s e s' : WInv s -> step c s e = Some s' -> WInv s'.
 Proof.
-  unfold WInv. intros W Bn H. destruct e as [its| |o| | |dt|]; cbn [step] in H.
+  unfold WInv. intros W H. destruct e as [its| |o| | |dt|]; cbn [step] in H.
   - destruct (closed s || paused s); [discriminate|].
     destruct (tag (nseen s) its) as [tits n'] eqn:T. inversion H; subst; clear H.
     apply tag_inc in T.
@@ -342,7 +325,7 @@ Proof.
     destruct (closed s); [discriminate|]. inversion H; subst; clear H.
     rewrite allids_of in *. cbn [out pc set_pc nseen cur_ids]. rewrite P in W. exact W.
   - destruct (pc s) as [|cur sd| |] eqn:P; try discriminate. inversion H; subst; clear H.
-    destruct (on_done_ids c s cur sd o P Bn) as [H1 H2]. rewrite H2. eapply inc_subseq; eassumption.
+    destruct (on_done_ids c s cur sd o P) as [H1 H2]. rewrite H2. eapply inc_subseq; eassumption.
   - inversion H; subst; clear H. destruct (closed s); [exact W|].
     destruct (deliver_ids s []) as ([Ho Hn] & Hs). rewrite Hn. cbn [tids flat_map] in Hs. rewrite app_nil_r in Hs.
     eapply inc_subseq; eassumption.
@@ -376,7 +359,7 @@ Qed.
 
 Lemma init_W : WInv init. Proof. unfold WInv. cbn. lia. Qed.
 
-Theorem reachb_W c s : ReachB c s -> WInv s.
+Theorem reach_W c s : Reach c s -> WInv s.
 Proof. induction 1; [apply init_W|eapply step_W; eassumption]. Qed.
 
 (* ---- completeness flags: only the last response may be cut short, and only when the loop has ended ---------- *)
@@ -410,9 +393,9 @@ Qed.
 Lemma DInv_frame s t : out t = out s -> (pc s = PExit -> pc t = PExit) -> DInv s -> DInv t.
 Proof. intros Ho Hp [D1 D2]. split; rewrite Ho; [exact D1|]. destruct D2; [left; auto|right; assumption]. Qed.
 
-Lemma on_done_D c s cur sd o : pc s = PHandler cur sd -> benign s (EDone o) -> DInv s -> DInv (on_done c s cur sd o).
+Lemma on_done_D c s cur sd o : pc s = PHandler cur sd -> DInv s -> DInv (on_done c s cur sd o).
 Proof.
-  intros P Bn [D1 D2]. assert (A : all_done (out s) = true) by (destruct D2 as [D2|D2]; [congruence|exact D2]).
+  intros P [D1 D2]. assert (A : all_done (out s) = true) by (destruct D2 as [D2|D2]; [congruence|exact D2]).
   assert (FF : forall status k, sd = false -> DInv (finish_fresh c s cur sd status k)).
   { intros status k ->. unfold finish_fresh. destruct (closed s).
     - eapply DInv_same; [apply exit_loop_ids|exact A].
@@ -425,7 +408,7 @@ Proof.
   { destruct sd; [apply EP; reflexivity|].
     eapply DInv_same; [|exact A]. destruct (exit_loop_ids (do_close s)) as ([Ho Hn] & _). split; assumption. }
   unfold on_done. destruct o as [keep status| |status| | | | ].
-  - cbn [benign] in Bn. rewrite P in Bn. apply FF; exact Bn.
+  - destruct sd; [apply EP; reflexivity|apply FF; reflexivity].
   - destruct sd; [|apply FF; reflexivity]. destruct (closed s); [apply EP; reflexivity|].
     set (r := {| r_id := id_of cur; r_status := 200; r_done := true |}).
     destruct (payload_check_ids c (set_ka (push s r) (negb (close_of cur))) cur) as [[Ho Hn] _].
@@ -443,9 +426,9 @@ Proof.
   rewrite P in P1. rewrite P1. exact P1.
 Qed.
 
-Theorem step_D c s e s' : DInv s -> benign s e -> step c s e = Some s' -> DInv s'.
+Theorem step_D c s e s' : DInv s -> step c s e = Some s' -> DInv s'.
 Proof.
-  intros D Bn H. destruct e as [its| |o| | |dt|]; cbn [step] in H.
+  intros D H. destruct e as [its| |o| | |dt|]; cbn [step] in H.
   - destruct (closed s || paused s); [discriminate|].
     destruct (tag (nseen s) its) as [tits n'] eqn:T. inversion H; subst; clear H.
     destruct (deliver_ids (set_nseen s n') tits) as ([Ho Hn] & _).
@@ -480,17 +463,17 @@ Proof.
 Qed.
 
 Lemma init_D : DInv init. Proof. split; [reflexivity|right; reflexivity]. Qed.
-Theorem reachb_D c s : ReachB c s -> DInv s.
+Theorem reach_D c s : Reach c s -> DInv s.
 Proof. induction 1; [apply init_D|eapply step_D; eassumption]. Qed.
 
 (* ---- the property-level statement over what is on the wire ------------------------------------------- *)
-Theorem order_once c s : ReachB c s ->
+Theorem order_once c s : Reach c s ->
   StronglySorted N.lt (rids (wire s)) /\
   all_done (removelast (wire s)) = true /\
   (all_done (wire s) = false -> closed s = true \/ exists cur, pc s = PHandler cur true).
 Proof.
-  intro R. pose proof (reachb_W _ _ R) as W. destruct (reachb_D _ _ R) as [D1 D2].
-  destruct (reach_inv _ _ (reachb_reach _ _ R)) as [_ _ _ X].
+  intro R. pose proof (reach_W _ _ R) as W. destruct (reach_D _ _ R) as [D1 D2].
+  destruct (reach_inv _ _ R) as [_ _ _ X].
   unfold WInv in W. rewrite allids_of in W. unfold wire.
   destruct (pc s) as [|cur [|]| |] eqn:P.
   - rewrite app_nil_r. split; [|split; [exact D1|]].
@@ -513,12 +496,12 @@ Proof.
     + intro F. left. apply X. reflexivity.
 Qed.
 
-(* every handler ending (benign) either closes the connection or appends exactly one complete response for that request *)
+(* every handler ending either closes the connection or appends exactly one complete response for that request *)
 Theorem answered_or_closed c s cur sd o s' :
-  pc s = PHandler cur sd -> benign s (EDone o) -> step c s (EDone o) = Some s' -> forcef s = closed s ->
+  pc s = PHandler cur sd -> step c s (EDone o) = Some s' -> forcef s = closed s ->
   closed s' = true \/ exists status, out s' = out s ++ [{| r_id := id_of cur; r_status := status; r_done := true |}].
 Proof.
-  intros P Bn H Fl. cbn [step] in H. rewrite P in H. inversion H; subst; clear H.
+  intros P H Fl. cbn [step] in H. rewrite P in H. inversion H; subst; clear H.
   assert (EX : forall t, forcef t = closed t -> closed (exit_loop t) = true).
   { intros t Ht. unfold exit_loop. destruct (forcef t) eqn:F; cbn; congruence. }
   assert (FF : forall status k, sd = false ->
@@ -528,7 +511,7 @@ Proof.
     right. exists status. destruct (payload_check_ids c (set_ka (push s {| r_id := id_of cur; r_status := status; r_done := true |}) (k && negb (close_of cur))) cur) as [[Ho _] _].
     rewrite Ho. reflexivity. }
   unfold on_done. destruct o as [keep status| |status| | | | ].
-  - cbn [benign] in Bn. rewrite P in Bn. apply FF; exact Bn.
+  - destruct sd; [left; apply EX; cbn; congruence|apply FF; reflexivity].
   - destruct sd; [|apply FF; reflexivity]. destruct (closed s) eqn:Cs; [left; apply EX; cbn; congruence|].
     right. exists 200. destruct (payload_check_ids c (set_ka (push s {| r_id := id_of cur; r_status := 200; r_done := true |}) (negb (close_of cur))) cur) as [[Ho _] _].
     rewrite Ho. reflexivity.
@@ -540,34 +523,9 @@ Proof.
 Qed.
 
 Theorem answered_or_closed_reach c s cur sd o s' :
-  Reach c s -> pc s = PHandler cur sd -> benign s (EDone o) -> step c s (EDone o) = Some s' ->
+  Reach c s -> pc s = PHandler cur sd -> step c s (EDone o) = Some s' ->
   closed s' = true \/ exists status, out s' = out s ++ [{| r_id := id_of cur; r_status := status; r_done := true |}].
 Proof.
-  intros R P Bn H. destruct (never_orphaned _ _ R) as (_ & _ & F). eapply answered_or_closed; eassumption.
+  intros R P H. destruct (never_orphaned _ _ R) as (_ & _ & F). eapply answered_or_closed; eassumption.
 Qed.
 
-(* executable form of `benign`, to exhibit benign runs by computation *)
-Definition benignb (s : st) (e : ev) : bool :=
-  match e with
-  | EDone (ORet _ _) => match pc s with PHandler _ started => negb started | _ => true end
-  | _ => true
-  end.
-
-Lemma benignb_ok s e : benignb s e = true -> benign s e.
-Proof.
-  unfold benignb, benign. destruct e; auto. destruct o; auto. destruct (pc s); auto. destruct started; cbn; auto; discriminate.
-Qed.
-
-Fixpoint runb (c : cfg) (s : st) (es : list ev) : option st :=
-  match es with
-  | [] => Some s
-  | e :: r => if benignb s e then match step c s e with Some s' => runb c s' r | None => None end else None
-  end.
-
-Lemma runb_reachb c es : forall s s', ReachB c s -> runb c s es = Some s' -> ReachB c s'.
-Proof.
-  induction es as [|e es IH]; intros s s' R H; cbn [runb] in H.
-  - inversion H; subst; exact R.
-  - destruct (benignb s e) eqn:B; [|discriminate]. destruct (step c s e) as [s1|] eqn:E; [|discriminate].
-    eapply IH; [|exact H]. eapply reachb_step; [exact R|apply benignb_ok; exact B|exact E].
-Qed.
